@@ -513,14 +513,17 @@ def main():
         for o in obs:
             print("  ", o.status, o.backend, round(o.time_s, 3), o.name, o.reason or o.info.get("why", "") if o.status != "discharged" else "")
     if os.environ.get("PYVC_WRITE_LOCK"):
-        allk = {}
-        if os.path.exists(lock_path):
-            with open(lock_path) as f:
-                allk = json.load(f)
-        allk[prop] = {"obligations": sorted({clause_name(o.name) for o in obs if o.status == "discharged" and lockable(o)}),
-                      "functions": {k: v.get("sha") for k, v in S.functions.items()}}
-        with open(lock_path, "w") as f:
-            json.dump(allk, f, indent=1, sort_keys=True)
+        import fcntl
+        with open(lock_path + ".flock", "w") as guard:            # several checks may refresh the clause lock at the same time
+            fcntl.flock(guard, fcntl.LOCK_EX)
+            allk = {}
+            if os.path.exists(lock_path):
+                with open(lock_path) as f:
+                    allk = json.load(f)
+            allk[prop] = {"obligations": sorted({clause_name(o.name) for o in obs if o.status == "discharged" and lockable(o)}),
+                          "functions": {k: v.get("sha") for k, v in S.functions.items()}}
+            with open(lock_path, "w") as f:
+                json.dump(allk, f, indent=1, sort_keys=True)
     if violations or standin_viol:
         return 1
     if undecided or S.unsupported or missing_locked:
